@@ -29,6 +29,8 @@ use std::time::{Duration, Instant};
 const SHORT: Duration = Duration::from_micros(150);
 const STEP_DEADLINE: Duration = Duration::from_millis(2500);
 const CASE_DEADLINE: Duration = Duration::from_secs(60);
+// once an attempt has deviated from the forecast, later steps of that attempt wait less
+const AFTER_DEVIATION: Duration = Duration::from_millis(250);
 
 // ------------------------------------------------------------------------------------------ pool
 
@@ -325,7 +327,7 @@ fn acc_case(toks: &[String]) -> (String, bool) {
                 }
                 sh.admitted.load(SeqCst) == want.admitted.unwrap() && sh.gauge.load(SeqCst) == want.gauge.unwrap() && *stopped == want.stopped
             },
-            STEP_DEADLINE,
+            if *matched { STEP_DEADLINE } else { AFTER_DEVIATION },
         );
         std::thread::sleep(Duration::from_millis(2));
         let o = observe(stopped);
@@ -552,7 +554,7 @@ fn srv_case(toks: &[String]) -> (String, bool) {
                     o.listening = want.listening;
                     o == want
                 },
-                STEP_DEADLINE,
+                if matched { STEP_DEADLINE } else { AFTER_DEVIATION },
             );
             std::thread::sleep(Duration::from_millis(3));
             poll_stop(&mut stopped, &mut stopped_rx);
